@@ -47,6 +47,18 @@ def affectsWill (b : B) (r : Nat) : Ev → Prop
   | .first c f a => (∃ c' ∈ takenOver b f a, sessRefOf b c' = some r) ∨ resumesRef (takeOver b f a).1 r c f a
   | _ => False
 
+instance (b : B) (r c : Nat) (f : First) (a : Bool) : Decidable (resumesRef b r c f a) := by
+  cases f <;> simp only [resumesRef] <;> infer_instance
+
+instance (b : B) (r : Nat) (e : Ev) : Decidable (affectsWill b r e) := by
+  cases e with
+  | packet c p => cases p <;> simp only [affectsWill] <;> infer_instance
+  | first c f a => simp only [affectsWill]; infer_instance
+  | close c => simp only [affectsWill]; infer_instance
+  | srvPub p => simp only [affectsWill]; infer_instance
+  | srvSub cb f q => simp only [affectsWill]; infer_instance
+  | srvUnsub cb f => simp only [affectsWill]; infer_instance
+
 /-- same will message and will flag -/
 def sameWill (s s' : Sess) : Prop := s'.will = s.will ∧ s'.willFlag = s.willFlag
 
@@ -268,6 +280,15 @@ def endsConn (b : B) (c : Nat) : Ev → Prop
   | .packet c' .disconnect => c' = c
   | .first c' f a => c' = c ∨ c ∈ takenOver b f a
   | _ => False
+
+instance (b : B) (c : Nat) (e : Ev) : Decidable (endsConn b c e) := by
+  cases e with
+  | packet c' p => cases p <;> simp only [endsConn] <;> infer_instance
+  | first c' f a => simp only [endsConn]; infer_instance
+  | close c' => simp only [endsConn]; infer_instance
+  | srvPub p => simp only [endsConn]; infer_instance
+  | srvSub cb f q => simp only [endsConn]; infer_instance
+  | srvUnsub cb f => simp only [endsConn]; infer_instance
 
 theorem getConn_markDead_ne (b : B) (c d : Nat) (h : d ≠ c) : (markDead b c).getConn d = b.getConn d := by
   unfold B.getConn markDead
